@@ -93,6 +93,9 @@ def arrays(reps, maxlen):
 
 ARRAY_FIXED = [# matrix / vector shapes with one row or one cell that is not what the first row promises
                "[[1,2],0]", "[[1],\"a\"]", "[[1,2],[3,nil]]", "[[1,\"x\"]]", "[[1],[2]]", "[[1,2]]", "[[1,0],[0,nil]]", "[1,[2]]", "[[1,2],[3,4]]", "[[1,2],nil]",
+               # many equal elements (comparators must be strict weak orderings: 17+ elements leave insertion sort)
+               '(call { private _m = []; for "_i" from 1 to 70 do { _m pushBack [1] }; _m })', '(call { private _m = []; for "_i" from 1 to 70 do { _m pushBack [1, "a"] }; _m })',
+               '(call { private _m = []; for "_i" from 1 to 70 do { _m pushBack "s" }; _m })', '(call { private _m = []; for "_i" from 1 to 70 do { _m pushBack (_i % 3) }; _m })',
                "[nil]", "[[]]", "[1,\"a\"]", "[[1,2],[3]]", "[-1,5]", "[0,1e10]", "[200,2e9]", "BIG", "DEEP", "[1,2,3,4,5,6,7,8,9,10]",
                "[[1,2,3],[4,5,6],[7,8,9]]", "[\"a\",\"b\",\"c\"]", "[[\"k\",1]]", "[OBJ, OBJ2]", "[0,0,0]", "[[0,0,0],[1,1,1]]", "[true,false]",
                "[{true},{false}]", "[1,[2,[3,[4]]]]", "[1e38*10, sqrt -1]"]
@@ -155,6 +158,26 @@ def reg():
     return r["result"]
 
 
+KEY_VALUES = {
+    "SCALAR": ["0", "-1", "0.5", "1e10", "(sqrt -1)", "(1e38*10)", "-2147483649", "255", "3.4e38"],
+    "STRING": ['""', '"a"', '"%99999999999"', "STR64", '"f.sqf"', '"CfgTest"', '"bom1.sqf"', '"sub"'],
+}
+
+
+def key_values(ty, pool):
+    """Boundary representatives of a pool that is too large to be crossed with the whole array pool."""
+    k = [v for v in KEY_VALUES.get(ty, []) if v in pool]
+    return k + [v for v in pool if v not in k][:max(0, 6 - len(k))]
+
+
+def dedup(it):
+    seen = set()
+    for x in it:
+        if x not in seen:
+            seen.add(x)
+            yield x
+
+
 def gen(tier, batch=40):
     def g():
         r = reg()
@@ -180,17 +203,16 @@ def gen(tier, batch=40):
             if lt == "ANY" and rt == "ANY":
                 pairs = list(zip(L, R)) + [(L[0], R[-1]), (L[-1], R[0]), (L[2], R[5])]
             else:
-                Lr = L if len(L) * len(R) <= 4000 else L[:40]
-                Rr = R if len(L) * len(R) <= 4000 else R[:40]
-                if len(L) * len(R) > 4000:
-                    # keep the full pool on the specifically typed side, a reduced one on the other
-                    if lt == "ARRAY" and rt != "ARRAY":
-                        Lr, Rr = L, R[:6]
-                    elif rt == "ARRAY" and lt != "ARRAY":
-                        Lr, Rr = L[:6], R
-                    else:
-                        Lr, Rr = L[:60], R[:60]
-                pairs = itertools.product(Lr, Rr)
+                if len(L) * len(R) <= 4000:
+                    pairs = itertools.product(L, R)
+                elif lt == "ARRAY" and rt != "ARRAY":
+                    # the full pool on the array side against the boundary representatives of the other type, and every
+                    # value of the other type against the fixed array shapes (the head of the array pool)
+                    pairs = dedup(itertools.chain(itertools.product(L, key_values(rt, R)), itertools.product(L[:40], R)))
+                elif rt == "ARRAY" and lt != "ARRAY":
+                    pairs = dedup(itertools.chain(itertools.product(key_values(lt, L), R), itertools.product(L, R[:40])))
+                else:
+                    pairs = itertools.product(L[:76], R[:76])
             for a, b in pairs:
                 cur.append(["b", n, lt, rt, a, b])
                 if len(cur) >= batch:
